@@ -262,7 +262,7 @@ TOTNAME = {"S(6)": "S(6)", "N(5)": "N(5)", "C(4)": "C(4)", "Alkalinity": "C(4)"}
 def observables(elems, extra=()):
     it = [("i", "pH", '-LA("H+")'), ("p", "pe", '-LA("e-")'), ("i", "mu", "MU"), ("i", "tc", "TC"),
           ("i", "aw", 'ACT("H2O")'), ("e", "water", 'TOT("water")'), ("i", "alk", "ALK"), ("e", "cb", "CHARGE_BALANCE"),
-          ("i", "rho", "RHO"), ("e", "vol", "SOLN_VOL"), ("i", "sc", "SC"), ("i", "OH", 'MOL("OH-")')]
+          ("i", "rho", "RHO"), ("e", "vol", "SOLN_VOL"), ("i", "sc", "SC"), ("i", "OH", 'MOL("OH-")'), ("i", "m_H+", 'MOL("H+")')]
     for e in elems:
         tn = TOTNAME.get(e, e)
         it.append(("i", f"tot_{tn}", f'TOT("{tn}")'))
